@@ -14,7 +14,7 @@ CONSTANTS
   PadBytes = {32}
   NlSet <- MC_NlSet
   StSet <- MC_StSet
-  WithEtx = TRUE
+  WithEtx = FALSE
   Quirks = {}
 INVARIANTS Export Recovered CtrlCInterrupts Returned
 CHECK_DEADLOCK FALSE
